@@ -1477,3 +1477,42 @@ def gen_leapfile(tier, seed):
 
 _gen_C06_core = GENERATORS["C06"]
 GENERATORS["C06"] = lambda tier, seed: _gen_C06_core(tier, seed) + gen_leapfile(tier, seed)
+
+
+# thin wrappers (to_*_seconds / days / parts, from_*_seconds / days, from_mjd_* / from_jde_*, ...) against the entry points that define them
+def gen_wrappers(tier, seed, with_float, n_quick):
+    g = EGen(seed * 53 + 5)
+    r = g.r
+    out = []
+    # (not within a reference-epoch offset of the Duration bounds: there the conversions saturate and wrappers that go through
+    #  different scales legitimately differ; every property is stated "as long as no bound is hit")
+    SAFE = MAXV - 4 * 10**18
+    for v in g.epoch_vals_pool()[::2] + [3 * 10**20, -3 * 10**20, SAFE, -SAFE]:
+        for t in (INT_SCALES if not with_float else [0, 1, 4, 5, 2, 3]):
+            if t in (2, 3) and abs(v) > 3 * 10**20:
+                continue
+            out.append(f"wrappers {p3(parts_of(v) + (t,))} {1 if with_float else 0}")
+    for x in (0.0, 1.0, -1.0, 0.5, 86400.0, 15020.0, 51544.5, 2415020.5, 2451545.0, 1e9, -1e9, 3155760000.0, 1e-9, 123456.789, 1e300, -1e300, 5e-324):
+        out.append(f"wrappers_from {fbits(x)}")
+    for a in g.small_parts_pool():
+        for t in range(9):
+            out.append(f"wrappers_int {p2(a)} {t}")
+    for _ in range(budget(tier, n_quick, n_quick * 50)):
+        k = r.random()
+        if k < 0.6:
+            e = g.rand_epoch([0, 1, 4, 5, 6, 7, 8] if not with_float else [0, 1, 4, 5, 2, 3])
+            if e[2] in (2, 3):
+                e = parts_of(r.randint(-3 * 10**20, 3 * 10**20)) + (e[2],)
+            if abs(val_of_parts(e[0], e[1])) > SAFE:
+                continue
+            out.append(f"wrappers {p3(e)} {1 if with_float else 0}")
+        elif k < 0.85:
+            x = r.choice([r.uniform(-4e6, 4e6), r.uniform(-3e11, 3e11), float(r.randint(-10**7, 10**7)), r.randint(0, 10**9) / 1024.0])
+            out.append(f"wrappers_from {fbits(x)}")
+        else:
+            out.append(f"wrappers_int {p2(g.rand_parts())} {r.randint(0, 8)}")
+    return out
+
+
+for _p, _wf, _n in (("C05", False, 1500), ("C17", True, 300), ("C07", True, 200), ("C20", False, 800), ("C16", False, 500)):
+    GENERATORS[_p] = (lambda base, wf, n: (lambda tier, seed: base(tier, seed) + gen_wrappers(tier, seed, wf, n)))(GENERATORS[_p], _wf, _n)
